@@ -59,3 +59,15 @@ Fixpoint allclose_unguarded (t : tol) (a b : list Q) : option bool :=
 Theorem result_diff_broadcast_refuted :
   exists t a b, allclose_unguarded t a b = None /\ allclose t a b = false.
 Proof. exists exact, [1; 2; 3], [1; 2]. split; reflexivity. Qed.
+
+(* C16 (known finding): unique_names / mkpipe can produce a duplicated step name when a name that
+   occurs once already looks like a generated one: ["a"; "a"; "a_1"] -> ["a_1"; "a_2"; "a_1"] *)
+From SKC Require Import Model.Pipeline.
+Theorem unique_names_collision_refuted :
+  exists names, ~ NoDup (unique_names names).
+Proof.
+  exists [[97]; [97]; [97; 95; 49]]%Z. intros H.
+  assert (E : unique_names [[97]; [97]; [97; 95; 49]]%Z = [[97; 95; 49]; [97; 95; 50]; [97; 95; 49]]%Z)
+    by (vm_compute; reflexivity).
+  rewrite E in H. inversion H as [|? ? Hn _]. apply Hn. simpl. auto.
+Qed.
